@@ -36,7 +36,9 @@ import re
 import shutil
 import subprocess
 import tempfile
+import time
 
+import c13_lists
 import flowutil
 import sheetgen
 from common import PY, REPO, VERIF, enc_str, impl_env, parse_sexp, dec_str
@@ -319,7 +321,8 @@ def materialise(inputs, root):
             os.makedirs(paths[key], exist_ok=True)
             for name, (headers, rows) in spec["sheets"].items():
                 flowutil.write_csv(os.path.join(paths[key], name + ".csv"), headers, rows)
-        elif k == "json":
+        elif k in ("json", "jsonbook"):
+            # "json": a flow file; "jsonbook": a workbook in the one-file format JSONSheetReader reads
             paths[key] = os.path.join(root, key + ".json")
             with open(paths[key], "w", encoding="utf-8") as f:
                 json.dump(spec["data"], f)
@@ -328,7 +331,7 @@ def materialise(inputs, root):
     mdir = os.path.join(root, "pymods")
     os.makedirs(mdir, exist_ok=True)
     with open(os.path.join(mdir, MODELS_MOD + ".py"), "w") as f:
-        f.write("# data models module of the C13 harness (no models: the generated workbooks have no data sheets)\n")
+        f.write(c13_lists.MODELS_SRC)    # one model, used by the data sheets of the hash-order stream only
     return paths
 
 
@@ -366,11 +369,14 @@ def run_worker(ops, paths, root, seed, tag):
         json.dump(job, f)
     env = impl_env()
     env["PYTHONHASHSEED"] = str(seed)
+    t0 = time.time()
     p = subprocess.run([PY, "-W", "ignore", WORKER, jp, rp], cwd=cwd, env=env, stdout=subprocess.PIPE, stderr=subprocess.STDOUT,
                        text=True, timeout=600)
     if not os.path.exists(rp):
         return {"crashed": p.stdout[-1500:], "results": []}
-    return json.load(open(rp, encoding="utf-8"))
+    out = json.load(open(rp, encoding="utf-8"))
+    out["wall"] = time.time() - t0
+    return out
 
 
 class HistGen:
@@ -431,6 +437,8 @@ class HistGen:
             return "rich"
         if spec["kind"] == "json":
             return "flowfile"
+        if spec["kind"] == "jsonbook":
+            return "jsonbook"
         return "ex1" if spec["path"] == EX1 else "fixture"
 
     def op(self, ops, inputs, observed=False):
@@ -484,12 +492,67 @@ class HistGen:
         return {"ops": ops, "inputs": inputs}
 
 
+def list_history(rng, lg, ostats):
+    """one case of the HASH-ORDER stream (c13_lists): 1..3 list-rich workbooks with sheets of equal names, compiled, their data
+    sheets saved, converted, parsed + exported; the compiled document thickened into a flow file and exported / loaded + rendered;
+    the first workbook as a one-file JSON workbook with its sheets in two orders.  The units are shuffled: every kind of call gets
+    to be the observed (last) one, compared with a fresh process."""
+    def count(k):
+        ostats[k] = ostats.get(k, 0) + 1
+
+    books = lg.case_books()
+    inputs = {f"in{i}": {"kind": "sheets", "sheets": b} for i, b in enumerate(books)}
+    wbs = list(inputs)
+    tags = rng.choice(c13_lists.TAG_FILTERS)
+    units = [[{"op": "create_flows", "wbs": wbs, "tags": tags, "out": rng.random() < 0.3, "data_models": MODELS_MOD}],
+             [{"op": "convert", "wb": rng.choice(wbs)}]]
+    if rng.random() < 0.6:
+        units.append([{"op": "save_data", "wbs": wbs, "tags": tags, "data_models": MODELS_MOD}])
+    if rng.random() < 0.4:
+        units.append([{"op": "parse_keep", "wbs": wbs, "data_models": MODELS_MOD},
+                      {"op": "to_rows", "target": ("rel", -1), "flow": rng.randint(0, 5), "numbered": rng.random() < 0.3}])
+    doc = c13_lists.compile_books(books)
+    count("books:" + str(len(books)))
+    count("compiles_here:" + ("ok" if doc else "no"))
+    if doc:
+        ren = {}
+        doc = json.loads(UUID_RE.sub(lambda m: ren.setdefault(m.group(0), sheetgen.new_uuid(rng)), json.dumps(doc, default=str)))
+        inputs["inF"] = {"kind": "json", "data": lg.thicken_doc(doc)}
+        units.append([{"op": "flows_to_sheets", "file": "inF", "strip": rng.random() < 0.4, "numbered": rng.random() < 0.4}])
+        if rng.random() < 0.5:
+            units.append([{"op": "load_keep", "file": "inF"}, {"op": "render", "target": ("rel", -1)}])
+    if rng.random() < 0.5:
+        b = books[0]
+        o1 = list(b)
+        o2 = o1[:]
+        rng.shuffle(o2)
+        if o2 == o1:
+            o2.reverse()
+        inputs["inJ1"] = {"kind": "jsonbook", "data": c13_lists.as_json_book(b, o1)}
+        inputs["inJ2"] = {"kind": "jsonbook", "data": c13_lists.as_json_book(b, o2)}
+        if rng.random() < 0.7:
+            units.append([{"op": "create_flows", "wbs": ["inJ1"], "fmt": "json", "tags": tags, "out": False, "data_models": MODELS_MOD},
+                          {"op": "create_flows", "wbs": ["inJ2"], "fmt": "json", "tags": tags, "out": False, "data_models": MODELS_MOD, "same_as": ("rel", -1)}])
+        else:
+            units.append([{"op": "convert", "wb": "inJ1", "fmt": "json"}, {"op": "convert", "wb": "inJ2", "fmt": "json", "same_as": ("rel", -1)}])
+    rng.shuffle(units)
+    ops = [o for u in units for o in u]
+    for i, o in enumerate(ops):
+        o["id"] = i
+        for k in ("target", "same_as"):
+            if isinstance(o.get(k), tuple):
+                o[k] = i + o[k][1]
+        count("op:" + o["op"] + (":json" if o.get("fmt") == "json" else ""))
+    count("observed:" + ops[-1]["op"])
+    return {"ops": ops, "inputs": inputs, "stream": "lists"}
+
+
 def fresh_slice(ops):
     """the observed (last) call with only what it needs: the call that built its container and,
     for to_rows, one render if the history rendered that container before"""
     last = ops[-1]
     if last["op"] not in ("render", "to_rows"):
-        return [last]
+        return [dict(last, same_as=None)] if last.get("same_as") is not None else [last]
     keep = next(o for o in ops if o["id"] == last["target"])
     out = [keep]
     if last["op"] == "to_rows" and any(o["op"] == "render" and o["target"] == last["target"] for o in ops[:-1]):
@@ -500,7 +563,7 @@ def fresh_slice(ops):
 def drop_op(ops, i):
     """history without call i and without the calls that need the container it built"""
     gone = {ops[i]["id"]}
-    return [o for k, o in enumerate(ops) if k != i and o.get("target") not in gone]
+    return [o for k, o in enumerate(ops) if k != i and o.get("target") not in gone and o.get("same_as") not in gone]
 
 
 # ================================================================== canonical outputs
@@ -579,7 +642,7 @@ def judge(hist, runs, fresh, given, model_ids):
     -> list of (key, summary)"""
     ops = hist["ops"]
     bad = []
-    seeds = sorted(runs)
+    seeds = list(runs)
     for s in seeds:
         r = runs[s]
         if r.get("crashed") is not None or len(r["results"]) != len(ops):
@@ -604,6 +667,21 @@ def judge(hist, runs, fresh, given, model_ids):
         else:
             continue
         break
+    # (b') one workbook written twice with its sheets enumerated in two orders (JSON workbooks: an object is an unordered map)
+    for k, o in enumerate(ops):
+        kj = next((i for i, p in enumerate(ops) if o.get("same_as") is not None and p["id"] == o["same_as"]), None)
+        if kj is None:
+            continue
+        a, b = texts[seeds[0]][kj], texts[seeds[0]][k]
+        if o["op"] == "convert" and base[k]["status"] == "ok" and base[kj]["status"] == "ok":
+            same = json.loads(a) == json.loads(b)      # the result lists the sheets: compared as the unordered map it is
+        else:
+            a, b = canon_text(a, given), canon_text(b, given)
+            same = a == b
+        if not same:
+            bad.append(("sheet-order-dependent-output", f"call {k} ({o['op']}) on the workbook of call {kj} with its sheets enumerated in another order "
+                        f"gives another result: " + first_diff(a, b)))
+            break
     # (a) the observed call against a fresh process
     if fresh is not None:
         if fresh.get("crashed") is not None or not fresh["results"]:
@@ -927,6 +1005,17 @@ def tables_inventory():
     return sorted(out)
 
 
+def tables_order_sources():
+    """the exposed (not `member`) order sources as the translator wrote them into Gen/Tables.v"""
+    tv = os.path.join(VERIF, "coq", "theories", "Gen", "Tables.v")
+    out = []
+    for line in open(tv, encoding="utf-8"):
+        m = re.match(r"\s*c13 order source: (\S+) (\S+) (\S+) \(line (\d+)\)\s*$", line)
+        if m and m.group(3) != "member":
+            out.append(" ".join(m.groups()))
+    return out
+
+
 # ================================================================== evaluation of one history
 class Lab:
     """runs histories: materialise once, then one worker process per (history, hash seed) + one fresh process"""
@@ -987,11 +1076,74 @@ def shrink(lab, hist, key, seeds, budget=14):
     return hist
 
 
+def shrink_inputs(lab, hist, key, seeds, budget=16):
+    """generated workbooks (kind "sheets") made smaller while the same class of failure remains: fewer workbooks per call,
+    fewer content-index rows, fewer sheets, fewer rows per flow sheet (from the end: edges point backwards)"""
+    def fails(h):
+        bad, _ = lab.evaluate(h, seeds)
+        return any(b[0] == key for b in bad)
+
+    def attempt(h2):
+        nonlocal hist, budget
+        if budget <= 0:
+            return False
+        budget -= 1
+        if fails(h2):
+            hist = h2
+            return True
+        return False
+
+    import copy
+    # fewer workbooks per call
+    for oi, o in enumerate(hist["ops"]):
+        j = 0
+        while len(hist["ops"][oi].get("wbs", [])) > 1 and j < len(hist["ops"][oi]["wbs"]):
+            h2 = copy.deepcopy(hist)
+            gone = h2["ops"][oi]["wbs"].pop(j)
+            for o2 in h2["ops"]:
+                if o2 is not h2["ops"][oi] and gone in o2.get("wbs", []) and len(o2["wbs"]) > 1:
+                    o2["wbs"].remove(gone)
+            if not attempt(h2):
+                j += 1
+    used = {k for o in hist["ops"] for k in o.get("wbs", []) + [o.get("wb"), o.get("file")] if k}
+    hist = dict(hist, inputs={k: v for k, v in hist["inputs"].items() if k in used})
+    for key_in, spec in list(hist["inputs"].items()):
+        if spec["kind"] != "sheets" or "content_index" not in spec["sheets"]:
+            continue
+        # fewer index rows
+        i = len(hist["inputs"][key_in]["sheets"]["content_index"][1]) - 1
+        while i >= 0 and budget > 0:
+            h2 = copy.deepcopy(hist)
+            del h2["inputs"][key_in]["sheets"]["content_index"][1][i]
+            attempt(h2)
+            i -= 1
+        # fewer sheets
+        for nm in list(hist["inputs"][key_in]["sheets"]):
+            if nm != "content_index" and budget > 0:
+                h2 = copy.deepcopy(hist)
+                del h2["inputs"][key_in]["sheets"][nm]
+                attempt(h2)
+        # shorter flow sheets
+        for nm in list(hist["inputs"][key_in]["sheets"]):
+            rows = hist["inputs"][key_in]["sheets"][nm][1]
+            if nm != "content_index" and "type" in hist["inputs"][key_in]["sheets"][nm][0] and "row_id" in hist["inputs"][key_in]["sheets"][nm][0]:
+                n = len(rows)
+                while n > 1 and budget > 0:
+                    n = n // 2
+                    h2 = copy.deepcopy(hist)
+                    h2["inputs"][key_in]["sheets"][nm][1] = h2["inputs"][key_in]["sheets"][nm][1][:n]
+                    if not attempt(h2):
+                        break
+    return hist
+
+
 def seeds_for(ctx):
+    """PYTHONHASHSEED values every history runs under: fixed ones (0 = hash randomisation off) and "random" (what a
+    user's process has by default: a seed nobody chose)"""
     if ctx.tier == "thorough":
         r = ctx.rng
-        return [0, 1, 77, 4242] + sorted({r.randrange(5, 4000000000) for _ in range(28)})
-    return [0, 1, 77, 4242]
+        return [0, 1, 77, 4242] + sorted({r.randrange(5, 4000000000) for _ in range(27)}) + ["random"]
+    return [0, 1, 77, "random"]
 
 
 # ================================================================== run
@@ -1049,11 +1201,27 @@ def run(ctx):
     cstats = ctx.stats.setdefault("correspondence", {})
     gen = HistGen(ctx.rng, gstats, thorough)
     hists = directed_histories() + [gen.history() for _ in range(n_hist)]
+    # the hash-order stream: list-rich inputs (repeated and near-duplicate entries in every list-valued feature)
+    lstats = ctx.stats.setdefault("hash_order_stream", {"cases": 0, "features": {}, "shape": {}, "outcomes": {}})
+    lg = c13_lists.ListGen(ctx.rng, lstats["features"])
+    n_list = (60 if thorough else 20) * ctx.scale
+    lists = [list_history(ctx.rng, lg, lstats["shape"]) for _ in range(n_list)]
+    lstats["cases"] = len(lists)
+    # interleaved, so that a time limit or an early exit does not starve one stream
+    step = max(1, len(hists) // max(1, len(lists)))
+    merged = []
+    for i, h in enumerate(hists):
+        merged.append(h)
+        if i % step == step - 1 and lists:
+            merged.append(lists.pop(0))
+    hists = merged + lists
     lab = Lab(seeds)
     nontrivial = set()
     inv_live = None
     try:
-        jobs = [lab.submit(h) for h in hists]
+        # thorough: the hash-order stream runs under 12 of the 32 seeds (4 fixed, 7 drawn, "random"): ~10 % of the budget
+        lseeds = seeds if not thorough else seeds[:4] + seeds[-8:]
+        jobs = [lab.submit(h, lseeds if h.get("stream") == "lists" else None) for h in hists]
         for job in jobs:
             hist = job["hist"]
             runs, fresh = lab.collect(job)
@@ -1067,9 +1235,14 @@ def run(ctx):
             for res in base:
                 ostats["calls"] += 1
                 ostats[res["status"]] = ostats.get(res["status"], 0) + 1
+                if hist.get("stream") == "lists":
+                    k2 = res["op"] + ":" + res["status"] + (":" + res["etype"] if res["status"] not in ("ok", "skipped") else "")
+                    lstats["outcomes"][k2] = lstats["outcomes"].get(k2, 0) + 1
+            wk = "worker_seconds:" + hist.get("stream", "histories")
+            ostats[wk] = round(ostats.get(wk, 0) + sum(r.get("wall", 0) for r in list(runs.values()) + [fresh]), 1)
             ostats["fresh_comparisons"] += 1
-            ostats["seed_comparisons"] += (len(seeds) - 1) * len(base)
-            v.coverage["evaluations"] += len(base) * len(seeds) + 1
+            ostats["seed_comparisons"] += (len(runs) - 1) * len(base)
+            v.coverage["evaluations"] += len(base) * len(runs) + 1
             if len({r["status"] for r in base}) > 1 and len({o["op"] for o in hist["ops"]}) > 1:
                 nontrivial.add(json.dumps([[o["op"], r["status"]] for o, r in zip(hist["ops"], base)]))
             if inv_live is None and runs[seeds[0]].get("inventory") is not None:
@@ -1088,6 +1261,8 @@ def run(ctx):
                 small = hist
                 if key != RENDER_COMPLETES and v.viol_by_key.get(key, 0) < 2 and not any(k["key"] == key for k in v.known):
                     small = shrink(lab, hist, key, seeds[:2] if key != "hashseed-dependent-output" else seeds)
+                    if any(i["kind"] == "sheets" for i in small["inputs"].values()):
+                        small = shrink_inputs(lab, small, key, seeds[:2] if key != "hashseed-dependent-output" else seeds)
                     again, _ = lab.evaluate(small, seeds)
                     summary = next((s for k2, s in again if k2 == key), summary)
                 v.failing_input(key, summary, dict(fn="history", ops=small["ops"], inputs=small["inputs"], seeds=seeds, key=key))
@@ -1097,9 +1272,10 @@ def run(ctx):
     if ctx.model:
         tagmatcher_correspondence(ctx, cstats)
         flags = parse_sexp(ctx.model.ask("(113 3)"))
-        cstats["inventory_okb"], cstats["handler_discipline_okb"] = flags
-        if flags != [1, 1]:
-            ctx.disagree("regenerated inventory / handler discipline no longer what the model covers", None, flags, [1, 1])
+        cstats["inventory_okb"], cstats["handler_discipline_okb"], cstats["order_sources_okb"] = (flags + [None, None, None])[:3]
+        if flags != [1, 1, 1]:
+            ctx.disagree("regenerated inventory / handler discipline / order sources (sets, directory enumerations, id, hash, clocks, "
+                         "random) no longer what the model covers", dict(order_sources_exposed=tables_order_sources()), flags, [1, 1, 1])
     if inv_live is not None:
         tab = tables_inventory()
         cstats["mutable_defaults_live"] = len(inv_live)
@@ -1113,8 +1289,16 @@ def run(ctx):
         "(~30% with an injected fault), generator-made rich workbooks, tests/input/example1 and tests/output/all_test_flows.json, with tag "
         "filters incl. the default argument and invalid ones; each history runs under every PYTHONHASHSEED of the tier plus one fresh "
         "process for its observed (last) call; an evaluation = one call in one process with its hidden-state reading, or one fresh-process "
-        "comparison; non-trivial = distinct (call kind, outcome) sequence with at least two kinds and two outcomes")
+        "comparison; non-trivial = distinct (call kind, outcome) sequence with at least two kinds and two outcomes.  HASH-ORDER stream "
+        "(20 cases quick / 60 thorough, same processes and comparisons): 1..3 workbooks per call with sheets of equal names, every list-valued "
+        "feature (choices literal and templated from data rows whose columns coincide, attachments, groups, webhook headers, airtime amounts, "
+        "loop lists, tests and category names of a router, template arguments, index tags, repeated create_flow rows, data rows with equal / "
+        "near-equal IDs, concat / sort with ties / filter, trigger keywords and groups, campaigns) filled from tiny pools so that repeated and "
+        "near-duplicate entries are the rule (distribution: stats.hash_order_stream.features); calls: create_flows, save_data_sheets, "
+        "convert_to_json, parse_all + to_rows, flows_to_sheets and from_dict + render of the compiled document thickened with repeated entries, "
+        "and the first workbook as a one-file JSON workbook with its sheets in two orders")
     v.coverage["samples"] = [dict(ops=[(o["op"], o.get("tags"), o.get("target")) for o in h["ops"]]) for h in (hists[0], hists[1], hists[len(hists) // 2], hists[-1])]
+    v.coverage["samples"].append(dict(stream="lists", ops=[(o["op"], o.get("fmt", "csv"), o.get("tags")) for o in next((h for h in hists if h.get("stream") == "lists"), hists[0])["ops"]]))
     v.coverage["hashseeds"] = seeds
     v.assumptions += [
         "uuid4() never returns a value it returned before (the only thing the model and the oracle use of it)",
